@@ -476,7 +476,9 @@ def rand_fault(ck):
     inside the grid whose neighbours are all masked, or only have weight 0, added one unit at a stale slot of
     the Jnn buffer).  Runs in a subprocess because the defect can crash the interpreter."""
     env = dict(os.environ)
-    r = subprocess.run(["timeout", "120", sys.executable, "-c", FAULT_SCRIPT % str(VERIF)], capture_output=True, text=True, env=env)
+    # generous limit: the subprocess queues on the overlay build lock when other checks run concurrently
+    # (a 120 s limit expired on a loaded machine - rc=124 - and was misreported as a crash)
+    r = subprocess.run(["timeout", "1200", sys.executable, "-c", FAULT_SCRIPT % str(VERIF)], capture_output=True, text=True, env=env)
     ck.count(("rand-fault",), nontrivial=True, bucket="rand-fault:subprocess")
     line = [l for l in r.stdout.splitlines() if l.startswith("@@")]
     replay = {"J_padded": "6x3x3, all -1 except J[1:5,1,1] = row", "I": [[[0, 1]]],
